@@ -22,6 +22,11 @@ RULE = ("format oracle: independent renderer from the native twin (integer arith
         "from_format oracle: round trip from_format(dt.format(fmt), fmt) == dt on fields and offset")
 ASSUMPTIONS = ["zones/offsets with whole-minute UTC offsets only (the Z/ZZ tokens cannot express seconds)", "locale data tables are read as data",
                "partial-date defaulting (year only -> month 1 ...) is exercised and recorded, not asserted beyond 'fields absent from the format come from now'"]
+try:
+    from pendulum.formatting import Formatter
+    FORMATTER = Formatter()
+except Exception as e:  # noqa: BLE001
+    raise env.HarnessError(f"cannot obtain pendulum's Formatter: {e}")
 LOCALES = sorted(d for d in os.listdir(os.path.join(env.REPO, "src", "pendulum", "locales"))
                  if os.path.isdir(os.path.join(env.REPO, "src", "pendulum", "locales", d)) and not d.startswith("_"))
 
@@ -263,7 +268,7 @@ class NowDefaults(Sub):
         dt, now = build(case["v"]), build(case["now"])
         fmt = case["fmt"]
         s = dt.format(fmt)
-        parts = pendulum._formatter.parse(s, fmt, now)
+        parts = FORMATTER.parse(s, fmt, now)
         req((parts["year"], parts["month"], parts["day"]) == (now.year, now.month, now.day), "fields absent from the format are not filled from the supplied now",
             fmt=fmt, string=s, got=[parts["year"], parts["month"], parts["day"]], now=now.isoformat())
         req(parts["hour"] == dt.hour and parts["minute"] == dt.minute, "time fields wrong", got=parts)
